@@ -16,6 +16,33 @@ CLAIMS = {
              " Partial: the in-place paths of grow/shrink and the rewind of failed initialisers are covered by the "
              "correspondence and oracles (interval map, canaries); their Lean frame lemmas are in Props/C12 and C11 as far as proved.",
         note=BASE_NOTE),
+    "C02": dict(
+        text="Theorems: the arena's own memory writes are exactly the copies of grow/shrink and grow_zeroed's zero fill (recorded as "
+             "memory effects with a byte-level semantics: memmove / copy_nonoverlapping / zero); allocation (any flavour), dealloc, reset "
+             "and a failed initialiser's rewind write nothing; grow and shrink preserve the first min(old,new) bytes and change no byte "
+             "outside the new block (copy_nonoverlapping is never applied to overlapping ranges); fill closures are called once per index "
+             "in order and a fallible fill stops right after the first error." + CORR +
+             " Canary oracle: every live block's bytes are re-verified after every operation on the real crate; closure call logs compared.",
+        note=BASE_NOTE + " The caller's own writes into a fresh block are outside the model (they are disjoint from live blocks by C01)."),
+    "C11": dict(
+        text="Theorems: the initialiser is not reached when the reservation fails (arena unchanged, failure returned); a failed "
+             "alloc_try_with/try_alloc_try_with whose initialiser allocated nothing returns the error and leaves the arena exactly as on "
+             "entry (same chunk: finger restored incl. padding) or as on entry plus the empty chunk acquired for the value (finger at its "
+             "footer), and the same layout requested next is served by the fast path at the same address with no allocator traffic; on "
+             "success nothing is rewound; the try-fill loop calls the closure for 0..=k and stops at the first error." + CORR +
+             " Partial: 'error value delivered exactly once' and 'blocks the initialiser kept stay intact' are checked by oracles on the "
+             "real crate (drop-counting error tokens, canaries on kept blocks), the slice try-fill reuse clause by the residue oracle; the "
+             "model proves the rewind is safe only for initialisers that allocate nothing.",
+        note=BASE_NOTE),
+    "C12": dict(
+        text="Theorems: for every live block and arbitrary old/new layouts (different alignments, zero sizes) grow and shrink return a block "
+             "aligned to new.align and MIN_ALIGN with new.size bytes inside the used part of a held chunk; every other region in a used part "
+             "disjoint from the old block stays in a used part and is disjoint from the new block; the first min(old,new) bytes are kept and "
+             "no byte outside the new block changes; grow_zeroed's tail reads zero; on Err arena and memory are unchanged; deallocate of any "
+             "live block in any order keeps the invariant and every other MIN_ALIGN-aligned live region; allocate is try_alloc_layout (C01/C04/C09)." + CORR +
+             " The 'standard collections parameterised by the arena behave as with the global allocator' clause is sampled "
+             "(allocator_api2 Vec/Box over &Bump vs std) rather than proved.",
+        note=BASE_NOTE),
     "C03": dict(
         text="Theorems: a ledger computed from the allocator event log alone (malloc adds, free erases the exact (addr,size,align)) "
              "always equals the arena's chunk list: preserved by every allocation flavour (which never frees and leaves it unchanged "
@@ -81,4 +108,4 @@ for _m in ("claims_vec", "claims_str", "claims_box", "claims_borrow", "claims_th
         pass
 
 # properties whose check is complete enough to be claimed in MANIFEST.json (the lead flips these on)
-READY = {"C01", "C03", "C04", "C06", "C07", "C08", "C09", "C10", "C18", "C19"}
+READY = {"C01", "C02", "C11", "C12", "C03", "C04", "C06", "C07", "C08", "C09", "C10", "C18", "C19"}
